@@ -16,15 +16,13 @@ PROP = dict(
         assumptions=['geometry domain of the theorems: grid of >= 1 cell, pitch >= width*bytesPerPixel, (height+1)*pitch+4 < 2^32, '
                      'depth in {8,15,16,24,32}, font glyphs >= 1x1, 256-entry palette; text: cols*rows < 2^31',
                      'SetLogo is called before SetFont (documented API contract)'],
-        level_text='Lean theorems for all geometries in the stated domain and all 32-bit arguments: text console write_frame, '
-                   'fill_clip, scroll_exact, no_oob; pixel console fill_clip, scroll_exact, padding/logo untouched, no_oob for '
-                   'Fill/Scroll, pack_color/pack_component (models with checked framebuffer access and 32-bit wrap-around arithmetic, specs pointwise in '
-                   'unbounded arithmetic). Tied to the Go code by regenerated constants/font metadata and a differential run '
-                   'with full framebuffer diffs, guard bytes and row padding.',
-        level_note='Partial: the in-grid pixel Write (glyph walk of write8/16/24) is '
-                   'not proved; it is covered by the correspondence run and the write-frame oracle only '
-                   '(theorems pix_write_frame_partial, pix_no_oob_partial, padding_untouched_partial say what is proved). '
-                   'Trusted: Lean kernel (+ propext, Classical.choice, Quot.sound), the theorem statements and Spec/Console.lean, '
-                   'the harness (correspondence is differential testing on generated inputs, not a proof about the Go code). '
+        level_text='Lean theorems for all geometries in the stated domain and all 32-bit arguments, for both consoles: '
+                   'write_frame (text cell / glyph bits -> packed fg, rest -> packed bg, all five depths), fill_clip, scroll_exact, '
+                   'no_oob, padding and logo rows untouched, pack_color/pack_component (models with checked framebuffer access and '
+                   '32-bit wrap-around arithmetic, specs pointwise in unbounded arithmetic). Tied to the Go code by regenerated '
+                   'constants/font metadata and a differential run with full framebuffer diffs, guard bytes and row padding.',
+        level_note='Trusted: Lean kernel (+ propext, Classical.choice, Quot.sound), the theorem statements and Spec/Console.lean, '
+                   'the harness (correspondence is differential testing on generated inputs, not a proof about the Go code); '
+                   'SetLogo drawing is checked by the oracle only (containment), not modelled. '
                    'D9, D10, D11 were confirmed by the oracle on the unrepaired tree and repaired in /repo.',
 )
